@@ -2,7 +2,7 @@
    the model's and the implementation's result of one API call), the decoder of call arguments, and the
    comparison.  No theorem depends on this file. *)
 From Coq Require Import String List Ascii ZArith NArith Bool.
-From QRB Require Import Base.Bytes Model.W Model.Values Model.Compile Model.Sexp Model.Decode Model.Wfe Model.Api Model.ApiFacts.
+From QRB Require Import Base.Bytes Model.W Model.Values Model.Compile Model.Sexp Model.Decode Model.Wfe Model.Api Model.ApiFacts Model.Ctor Model.CtorFacts.
 Import ListNotations.
 Local Open Scope string_scope.
 Local Open Scope list_scope.
@@ -103,8 +103,53 @@ Definition d_aarg (x : sexp) : option (aarg nat) :=
         (d_all' (fun y => match y with
                                 | SList [k; v] => match d_str k, d_any v with Some k', Some v' => Some (k', v') | _, _ => None end
                                 | _ => None end) l)
+  | SList [SAtom "any"; v] => option_map (@AAny nat) (d_any v)
+  | SList (SAtom "anys" :: l) => option_map (@AAnys nat) (d_all' d_any l)
+  | SList [SAtom "bool"; b] => option_map (@ABool nat) (d_bool b)
+  | SList [SAtom "int"; z] => option_map (@AInt nat) (d_int z)
+  | SList [SAtom "with"; sel] =>
+      match d_exp_or_nil sel with Some (ESelect ws _ _) => Some (AWith ws) | _ => None end
   | _ => None
   end.
+
+(* a WITH builder state travels as the dump of [w.Select()] (a select builder carrying exactly its queries) *)
+Definition d_ws (x : sexp) : option (list (withq exp)) :=
+  match d_exp_or_nil x with Some (ESelect ws _ _) => Some ws | _ => None end.
+Definition d_wrecv (x : sexp) : option (wrecv nat) :=
+  match x with
+  | SList [SAtom "wb"; sel] => option_map (@WB nat) (d_ws sel)
+  | SList [SAtom "wwb"; sel] => option_map (@WWB nat) (d_ws sel)
+  | SList [SAtom "wsb"; sel; ty] => match d_ws sel, d_str ty with Some ws, Some t => Some (WSB ws t) | _, _ => None end
+  | SList [SAtom "wsbb"; sel; ty; SList by_] =>
+      match d_ws sel, d_str ty, d_all' d_exp_or_nil by_ with
+      | Some ws, Some t, Some b => Some (WSBB ws t b) | _, _, _ => None end
+  | _ => None
+  end.
+Definition is_wrecv (x : sexp) : bool :=
+  match x with
+  | SList (SAtom k :: _) => String.eqb k "wb" || String.eqb k "wwb" || String.eqb k "wsb" || String.eqb k "wsbb"
+  | _ => false
+  end.
+Definition enc_wrecv (w : wrecv nat) : string :=
+  match w with
+  | WB ws => jn ["wb"; enc_withs enc ws]
+  | WWB ws => jn ["wwb"; enc_withs enc ws]
+  | WSB ws ty => jn ["wsb"; enc_withs enc ws; es ty]
+  | WSBB ws ty b => jn ["wsbb"; enc_withs enc ws; es ty; el enc b]
+  end.
+Definition enc_ares (r : ares nat) : string := match r with RExp e => enc e | RWith w => enc_wrecv w end.
+Definition d_ares (x : sexp) : option (ares nat) :=
+  if is_wrecv x then option_map (@RWith nat) (d_wrecv x) else option_map (@RExp nat) (d_exp_or_nil x).
+
+(* the model's result of one call: on a WITH builder state, at an entry point, or on a statement builder *)
+Definition api_any (rtype meth : string) (recv : sexp) (a : list (aarg nat)) : option (option (ares nat)) :=
+  if is_wrecv recv then option_map (fun w => api_with meth w a) (d_wrecv recv)
+  else if String.eqb rtype "qrb" && (String.eqb meth "With" || String.eqb meth "WithRecursive")
+  then Some (option_map (@RWith nat) (entry_with meth a))
+  else if String.eqb rtype "ctor" then Some (option_map (@RExp nat) (ctor meth a))
+  else if String.eqb rtype "meth" then option_map (fun r => option_map (@RExp nat) (Ctor.meth meth r a)) (d_exp_or_nil recv)
+  else option_map (fun r => option_map (@RExp nat) (if String.eqb rtype "qrb" then entry meth a else api rtype meth r a))
+                  (d_exp_or_nil recv).
 
 (* ---------------------------------------------------------------- one API call: model vs implementation *)
 Inductive api_verdict := ApiOk | ApiDiff (model impl : string) | ApiNone | ApiDecodeFail (what : string).
@@ -114,32 +159,36 @@ Definition api_or_entry (rtype meth : string) (r : exp) (a : list (aarg nat)) : 
 
 (* the model's result of one call, for rendering *)
 Definition api_result (rtype meth : string) (recv : sexp) (args : list sexp) : option exp :=
-  match d_exp_or_nil recv, d_all' d_aarg args with
-  | Some r, Some a => api_or_entry rtype meth r a
-  | _, _ => None
+  match d_all' d_aarg args with
+  | Some a => match api_any rtype meth recv a with Some (Some (RExp e)) => Some e | _ => None end
+  | None => None
   end.
 
 (* the hypotheses of C20_builder_call_preserves_wf / reachable, evaluated on one recorded call *)
 Definition api_hyp (rtype meth : string) (recv : sexp) (args : list sexp) : option bool :=
-  match d_exp_or_nil recv, d_all' d_aarg args with
-  | Some r, Some a =>
-      Some ((String.eqb rtype "qrb" || wfe r) && forallb (aarg_wfe nat) a && query_okb nat (mkey rtype meth) a)
-  | _, _ => None
+  match d_all' d_aarg args with
+  | Some a =>
+      if is_wrecv recv then option_map (fun w => wr_ok nat w && forallb (aarg_wfe nat) a) (d_wrecv recv)
+      else if String.eqb rtype "ctor" then Some (forallb (aarg_wfe nat) a)
+      else if String.eqb rtype "meth" then option_map (fun r => hwf nat r && forallb (aarg_wfe nat) a) (d_exp_or_nil recv)
+      else option_map (fun r => (String.eqb rtype "qrb" || wfe r) && forallb (aarg_wfe nat) a && query_okb nat (mkey rtype meth) a)
+                      (d_exp_or_nil recv)
+  | None => None
   end.
 
 (* result = (SAtom "panic") when the implementation's call panicked *)
 Definition api_check (rtype meth : string) (recv : sexp) (args : list sexp) (result : sexp) : api_verdict :=
-  match d_exp_or_nil recv, d_all' d_aarg args with
-  | Some r, Some a =>
-      match api_or_entry rtype meth r a, result with
-      | None, _ => ApiNone                      (* method not modelled, or the model says the call panics *)
-      | Some m, SAtom "panic" => ApiDiff (enc m) "panic"
-      | Some m, _ =>
-          match d_exp_or_nil result with
-          | Some res => if String.eqb (enc m) (enc res) then ApiOk else ApiDiff (enc m) (enc res)
+  match d_all' d_aarg args with
+  | Some a =>
+      match api_any rtype meth recv a, result with
+      | None, _ => ApiDecodeFail "receiver"
+      | Some None, _ => ApiNone                 (* method not modelled, or the model says the call panics *)
+      | Some (Some m), SAtom "panic" => ApiDiff (enc_ares m) "panic"
+      | Some (Some m), _ =>
+          match d_ares result with
+          | Some res => if String.eqb (enc_ares m) (enc_ares res) then ApiOk else ApiDiff (enc_ares m) (enc_ares res)
           | None => ApiDecodeFail "result"
           end
       end
-  | None, _ => ApiDecodeFail "receiver"
-  | _, None => ApiDecodeFail "arguments"
+  | None => ApiDecodeFail "arguments"
   end.
